@@ -3,16 +3,33 @@ from .. import common as C, generic as G
 from . import C17
 
 TRUSTED = C17.TRUSTED + ['translator/tables.py: post-evaluation regions (control-flow trees from each evaluate_objective call to the first commit/exit) and guard classification',
-                         'hypothesis H_geom (a geometry/trust-region replacement never overwrites the incumbent slot unless the incumbent was saved) -- monitored by the sweep']
+                         'hypothesis `admissible` of the model theorem: discharged site by site on the regenerated tables (Slots.v) and checked step by step, inside Coq, on recorded histories of real solve() runs (harness/histcorr.py); ties in the distance sort are not covered',
+                         'harness/histcorr.py: recorder at the boundary of dfols.model.Model (monkey-patched methods, no source hook)']
 
 
 def correspondence(ctx):
     C17.correspondence(ctx, ctx.scale(96, 1200), ctx.scale(30, 60))
+    from .. import histcorr
+    histcorr.correspondence(ctx, ctx.scale(32, 400))
 
 
 def run(ctx):
-    return G.run(ctx, 'C04', 'proof', ('Gen_util', 'Gen_model', 'Gen_tables'), ['Char_model.v', 'C17.v', 'Slots.v', 'C04.v'], TRUSTED, correspondence=correspondence)
+    def more_histories(c):
+        from .. import histcorr
+        c.seed += 1000
+        try:
+            histcorr.correspondence(c, 600)
+        finally:
+            c.seed -= 1000
+    return G.run(ctx, 'C04', 'proof', ('Gen_util', 'Gen_model', 'Gen_tables'), ['Char_model.v', 'C17.v', 'Slots.v', 'C04.v'], TRUSTED,
+                 correspondence=correspondence, corr_needs=['Char_model', 'C17'], search_extra=more_histories)
 
 
 def replay(payload):
+    d = payload.get('data') or {}
+    if d.get('kind') == 'inadmissible-history':
+        from .. import histcorr
+        v = histcorr.replay(d)
+        print('replay:', v)
+        return 1 if v else 0
     return G.replay('C04', payload)
